@@ -1,6 +1,7 @@
 package zzh
 
 import (
+	"strings"
 	"MODULE/restli"
 	"MODULE/restlicodec"
 	verif "MODULE/zzverif"
@@ -121,6 +122,21 @@ func Harness_C07_Reader(format int) {
 			w := restlicodec.NewRor2HeaderWriterWithExcludedFields(spec)
 			verif.Assert(c07Item().MarshalRestLi(w) == nil, "encode")
 			enc = w.Finalize()
+		}
+	}
+	// JSON: explicit nulls (legal for unknown and optional members, and
+	// skipped by the reader) ahead of the members at the top level or inside
+	// the nested record must not change which paths the later members have
+	if format == 0 && len(enc) > 2 {
+		switch verif.Choose(4) {
+		case 1:
+			enc = `{"aq":null,` + enc[1:]
+		case 2:
+			enc = `{"aq":null,"ar":null,` + enc[1:]
+		case 3:
+			if i := strings.Index(enc, `"sub":{"`); i >= 0 {
+				enc = enc[:i] + `"sub":{"aq":null,` + enc[i+len(`"sub":{`):]
+			}
 		}
 	}
 	spec := restlicodec.NewPathSpec(c07Specs[k]...)
